@@ -83,11 +83,18 @@ def c07(tier):
 
 
 def c10(tier):
-    return [R("probstate")]
+    runs = [R("probstate")]
+    if tier == "thorough":
+        runs.append(R("racecheck", miri=True))
+    return runs
 
 
 def c11(tier):
-    return [R("sched", workspace="sched"), R("probstate", rayon_threads=4), R("fitgrid", rayon_threads=4)]
+    runs = [R("sched", workspace="sched"), R("probstate", rayon_threads=4), R("fitgrid", rayon_threads=4)]
+    if tier == "thorough":
+        # free-running pass on real rayon under miri's data-race detector (atomicity assumption of the schedule explorer)
+        runs.append(R("racecheck", miri=True))
+    return runs
 
 
 PLAN = {
